@@ -904,11 +904,14 @@ def literal_family():
         H("c13_inv_large_literal_%d" % w, "h_mod::ring_inv_large_literals(%d)" % w, {"C13": "probe"} if w in (3, 8, 9, 12, 13, 15, 18, 19) else Q("C13"), unwind=200, stubs=REALLOC,
           bound="LITERAL POINT: inv_large (hook verif_inv_large) in a 3-word ring m = (2^64+1)*c, case %d of 20: residues of 1-3 words with and without a common factor with m, expected value a constant computed outside; realloc stubbed as allocate + copy + free" % w)
     import struct
-    for fv in (0.25, 0.75, 1.5, -1.5, 2.5, 3.0, 1e10, -1e10, 16777216.0, 1.0995116e12, 1e-20, -1e-20, 0.0, float("inf"), float("-inf"), float("nan")):
-        fb = struct.unpack("<I", struct.pack("<f", fv))[0]
-        for neg in (False, True):
-            H("c14_ord_f32_%08x_%s" % (fb, "n" if neg else "p"), "h_numord::ord_float_semi(%s,%d)" % ("true" if neg else "false", fb), TH("C14"), unwind=8,
-              bound="NumOrd both directions between EVERY %s one-word integer and the literal f32 %r" % ("negative" if neg else "non-negative", fv))
+    F32 = (0.25, 0.75, 1.5, -1.5, 2.5, 3.0, 1e10, -1e10, 16777216.0, 1.0995116e12, 1.8446744e19, 9.223372e18, -9.223372e18, 1e-20, -1e-20, 0.0, -0.0, float("inf"), float("-inf"), float("nan"))
+    F64 = (0.1, 1.5, -2.5, 1e15, 4503599627370496.5, 18446744073709551616.0, 9223372036854775808.0, -9223372036854775808.0, 1e19, 1.8446744073709552e19 * 4, 1e-30, -1e-30, 0.0, float("inf"), float("-inf"), float("nan"))
+    for is64, FS in ((False, F32), (True, F64)):
+        for fv in FS:
+            fb = struct.unpack("<Q", struct.pack("<d", fv))[0] if is64 else struct.unpack("<I", struct.pack("<f", fv))[0]
+            for neg in (False, True):
+                H("c14_ord_%s_%x_%s" % ("f64" if is64 else "f32", fb, "n" if neg else "p"), "h_numord::ord_float_semi(%s,%s,%d)" % ("true" if neg else "false", "true" if is64 else "false", fb), Q("C14", "C16"), unwind=8,
+                  bound="NumOrd both directions between EVERY %s one-word integer (IBig%s) and the literal %s %r" % ("non-positive" if neg else "non-negative", "" if neg else ", UBig", "f64" if is64 else "f32", fv))
     H("c14_ord_float_literals", "h_numord::ord_float_literals()", Q("C14"), "i64", unwind=16, bound="LITERAL POINTS: NumOrd of 7 small integers against 9 literal f32/f64 values (fractions, halves, integers, -0.0, NaN)")
     # (h_conv::from_f32 / from_f64_exp with a literal exponent field and a symbolic mantissa: 59 of 60 ran out of
     #  memory - decode() masks the field out of the symbolic bits and the shift amount stays symbolic; unregistered)
